@@ -1,5 +1,5 @@
 From Coq Require Extraction.
 From Coq Require Import ExtrOcamlBasic.
 From RM Require Import C05.Model C05.Driver.
-Extraction "c05_model.ml" run_case frame_module trust_code f_instr f_resume f_trust f_regs f_valid r_ip r_sp r_fp r_lr r_gp
+Extraction "c05_model.ml" run_case frame_module frame_function trust_code f_instr f_resume f_trust f_regs f_valid r_ip r_sp r_fp r_lr r_gp
   s_func_lo parse_symfile.
